@@ -345,6 +345,8 @@ def rule_r4(ck, prog, rule='C09.R4'):
             return False
         op, l, r = c
         ln, rn = strip_casts(f, l), strip_casts(f, r)
+        if rn['k'] == 'call' and ln['k'] != 'call':
+            ln, rn = rn, ln      # `4 != SplitString(...)`: equality tests are symmetric
         if not (ln['k'] == 'call' and strip_targs(ln.get('c', '')).endswith('SplitString') and rn.get('v') == 4 and f.nodes[ln['args'][3]].get('v') == 4):
             return False
         truth = lab[2] if pol else (not lab[2])
